@@ -48,8 +48,32 @@ def parse_template(path):
     cur = None
     sec = None
     raw = []
-    for ln in open(path).read().split("\n"):
+    def expand(pth, depth=0):
+        out = []
+        for ln in open(pth).read().split("\n"):
+            st = ln.strip()
+            if st.startswith("//@include "):
+                if depth > 5:
+                    raise Undecided("include depth")
+                out += expand(os.path.join(VERIF, st.split()[1]), depth + 1)
+            else:
+                out.append(ln)
+        return out
+
+    for ln in expand(path):
         s = ln.strip()
+        if s.startswith("//@const "):
+            # //@const <file> <NAME> : the real `const NAME: T = EXPR;` item, visibility stripped
+            toks = s.split()
+            src = open(os.path.join(SRC, toks[1])).read()
+            masked = X.mask(src)
+            ms = [m for m in re.finditer(r"(?:pub(?:\([a-z]+\))?\s+)?const\s+%s\s*:[^;]*;" % re.escape(toks[2]), masked)
+                  if not X._in_test_mod(masked, m.start())]
+            if len(ms) != 1:
+                raise Undecided("lost anchor: const %s in %s found %d times" % (toks[2], toks[1], len(ms)))
+            item = re.sub(r"^pub(?:\([a-z]+\))?\s+", "", src[ms[0].start():ms[0].end()])
+            (raw if cur is None else (_ for _ in ()).throw(Undecided("//@const inside //@fn"))).append("pub " + item)
+            continue
         if s.startswith("//@fn "):
             if cur is not None:
                 raise Undecided("%s: nested //@fn" % path)
@@ -89,6 +113,9 @@ def parse_template(path):
             cur["header"] = s[len("//@header "):]
         elif s == "//@spec":
             sec = cur["spec"]
+        elif s.startswith("//@endloop "):
+            k = int(s.split()[1])
+            sec = cur.setdefault("endloops", {}).setdefault(k, [])
         elif s.startswith("//@loop "):
             k = int(s.split()[1])
             sec = cur["loops"].setdefault(k, [])
@@ -178,6 +205,12 @@ def fill_fn(spec, canary, canary_ids, log):
             raise Undecided("lost anchor: fn %s has %d loops, contract names loop %d"
                             % (spec["name"], len(lps), k))
         inserts.append((lps[k - 1][1], "\n" + "\n".join(lines) + "\n"))
+    for k, lines in spec.get("endloops", {}).items():
+        if k < 1 or k > len(lps):
+            raise Undecided("lost anchor: fn %s has %d loops, contract names endloop %d"
+                            % (spec["name"], len(lps), k))
+        close = X.match_brace(X.mask(body), lps[k - 1][1])
+        inserts.append((close, "\n" + "\n".join(lines) + "\n"))
     # 4. proof blocks at statement anchors ----------------------------------------------------
     masked = X.mask(body)
 
